@@ -1,0 +1,265 @@
+//! Hooks for deterministic simulation (compiled only with the cargo feature `verif`).
+//!
+//! This file is a child module of `process.rs` (declared at its end), so that it can reach the
+//! private building blocks of the autoalloc process without changing their visibility.
+//!
+//! `SimAutoAlloc` owns a real `AutoAllocState` and exposes the private building blocks of
+//! `autoalloc_process` (message handling, the submit pass, the periodic refresh) so that an
+//! external harness can decide their order and inject its own batch system behind the
+//! `QueueHandler` trait. Nothing here is used by `hq`.
+
+use std::path::PathBuf;
+use std::time::{Duration, Instant};
+
+use tako::WorkerId;
+use tako::control::ServerRef;
+use tako::resources::ResourceDescriptor;
+use tako::worker::WorkerConfiguration;
+
+use crate::common::rpc::ResponseToken;
+use super::{AutoallocSenders, do_periodic_update, handle_message, perform_submits};
+use crate::server::autoalloc::service::AutoAllocMessage;
+use crate::server::autoalloc::state::{AllocationQueueState, AutoAllocState};
+use crate::server::autoalloc::{Allocation, AllocationId, QueueId, QueueParameters};
+use crate::server::event::streamer::EventStreamer;
+use crate::transfer::messages::QueueData;
+
+pub use crate::common::manager::info::{ManagerInfo, ManagerType};
+pub use crate::common::utils::time::AbsoluteTime;
+pub use crate::server::autoalloc::config::{
+    MAX_QUEUED_STATUS_ERROR_COUNT, MAX_RUNNING_STATUS_ERROR_COUNT, MAX_SUBMISSION_FAILS,
+    SUBMISSION_DELAYS, max_allocation_fails,
+};
+pub use crate::server::autoalloc::queue::{
+    AllocationExternalStatus, AllocationStatusMap, AllocationSubmissionResult, QueueHandler,
+    QueueInfo, SubmitMode,
+};
+pub use crate::server::autoalloc::service::LostWorkerDetails;
+pub use crate::server::autoalloc::state::{AllocationState, AllocationWorkdir};
+
+#[derive(Debug, Clone)]
+pub struct LimiterSnapshot {
+    pub current_delay: usize,
+    pub last_submission: Option<Instant>,
+    pub allocation_fails: u64,
+    pub submission_fails: u64,
+}
+
+#[derive(Debug, Clone)]
+pub struct QueueSnapshot {
+    pub id: QueueId,
+    pub paused: bool,
+    pub params: QueueParameters,
+    pub worker_resources: Option<ResourceDescriptor>,
+    pub limiter: LimiterSnapshot,
+    /// Sorted by allocation id
+    pub allocations: Vec<Allocation>,
+}
+
+#[derive(Debug, Clone)]
+pub struct AutoAllocSnapshot {
+    /// Sorted by queue id
+    pub queues: Vec<QueueSnapshot>,
+    /// Sorted by allocation id
+    pub allocation_index: Vec<(AllocationId, QueueId)>,
+    pub inactive_directories: usize,
+}
+
+/// Splits `DisconnectedWorkers` (whose content is private) into (worker, details) pairs.
+pub fn disconnected_workers(
+    workers: &crate::server::autoalloc::state::DisconnectedWorkers,
+) -> Vec<(WorkerId, LostWorkerDetails)> {
+    let mut v: Vec<_> = workers.clone().into_iter().collect();
+    v.sort_by_key(|(id, _)| *id);
+    v
+}
+
+pub struct SimAutoAlloc {
+    state: AutoAllocState,
+    senders: AutoallocSenders,
+}
+
+impl SimAutoAlloc {
+    /// MIRROR: `create_autoalloc_service` (state creation) + the first lines of
+    /// `autoalloc_process`.
+    pub fn new(server: ServerRef, events: EventStreamer, queue_id_counter: u32) -> Self {
+        SimAutoAlloc {
+            state: AutoAllocState::new(queue_id_counter),
+            senders: AutoallocSenders { server, events },
+        }
+    }
+
+    /// The real `AddQueue` message; the PBS/Slurm handler created by `create_queue` is then
+    /// replaced by `handler`.
+    pub async fn add_queue(
+        &mut self,
+        server_directory: PathBuf,
+        params: QueueParameters,
+        worker_resources: Option<ResourceDescriptor>,
+        handler: Box<dyn QueueHandler>,
+    ) -> (anyhow::Result<QueueId>, bool) {
+        let (token, mut rx) = ResponseToken::new();
+        let schedule = self
+            .message(AutoAllocMessage::AddQueue {
+                server_directory,
+                params,
+                queue_id: None,
+                worker_resources,
+                response: token,
+            })
+            .await;
+        let result = rx.try_recv().expect("AddQueue was not answered");
+        if let Ok(id) = &result {
+            self.state
+                .get_queue_mut(*id)
+                .expect("created queue does not exist")
+                .verif_set_handler(handler);
+        }
+        (result, schedule)
+    }
+
+    /// The real `handle_message`. Returns its "should schedule" flag.
+    async fn message(&mut self, message: AutoAllocMessage) -> bool {
+        handle_message(&mut self.state, &self.senders.events, message).await
+    }
+
+    pub async fn worker_connected(
+        &mut self,
+        id: WorkerId,
+        config: WorkerConfiguration,
+        manager_info: ManagerInfo,
+    ) -> bool {
+        self.message(AutoAllocMessage::WorkerConnected {
+            id,
+            config,
+            manager_info,
+        })
+        .await
+    }
+
+    pub async fn worker_lost(
+        &mut self,
+        id: WorkerId,
+        manager_info: ManagerInfo,
+        details: LostWorkerDetails,
+    ) -> bool {
+        self.message(AutoAllocMessage::WorkerLost(id, manager_info, details))
+            .await
+    }
+
+    pub async fn job_submitted(&mut self, job_id: tako::JobId) -> bool {
+        self.message(AutoAllocMessage::JobSubmitted(job_id)).await
+    }
+
+    pub async fn remove_queue(&mut self, id: QueueId, force: bool) -> (anyhow::Result<()>, bool) {
+        let (token, mut rx) = ResponseToken::new();
+        let schedule = self
+            .message(AutoAllocMessage::RemoveQueue {
+                id,
+                force,
+                response: token,
+            })
+            .await;
+        (rx.try_recv().expect("RemoveQueue was not answered"), schedule)
+    }
+
+    pub async fn pause_queue(&mut self, id: QueueId) -> (anyhow::Result<()>, bool) {
+        let (token, mut rx) = ResponseToken::new();
+        let schedule = self
+            .message(AutoAllocMessage::PauseQueue {
+                id,
+                response: token,
+            })
+            .await;
+        (rx.try_recv().expect("PauseQueue was not answered"), schedule)
+    }
+
+    pub async fn resume_queue(&mut self, id: QueueId) -> (anyhow::Result<()>, bool) {
+        let (token, mut rx) = ResponseToken::new();
+        let schedule = self
+            .message(AutoAllocMessage::ResumeQueue {
+                id,
+                response: token,
+            })
+            .await;
+        (rx.try_recv().expect("ResumeQueue was not answered"), schedule)
+    }
+
+    pub async fn get_queues(&mut self) -> tako::Map<QueueId, QueueData> {
+        let (token, mut rx) = ResponseToken::new();
+        self.message(AutoAllocMessage::GetQueues(token)).await;
+        rx.try_recv().expect("GetQueues was not answered")
+    }
+
+    pub async fn get_queue_allocations(&mut self, id: QueueId) -> anyhow::Result<Vec<Allocation>> {
+        let (token, mut rx) = ResponseToken::new();
+        self.message(AutoAllocMessage::GetQueueAllocations(id, token))
+            .await;
+        rx.try_recv().expect("GetQueueAllocations was not answered")
+    }
+
+    pub async fn get_allocation(&mut self, id: AllocationId) -> anyhow::Result<Allocation> {
+        let (token, mut rx) = ResponseToken::new();
+        self.message(AutoAllocMessage::GetAllocation(id, token))
+            .await;
+        rx.try_recv().expect("GetAllocation was not answered")
+    }
+
+    /// MIRROR: the `scheduling_interval` arm of `autoalloc_process` once scheduling is due.
+    /// Returns false if there was no active queue (nothing was done).
+    pub async fn scheduling_tick(&mut self) -> anyhow::Result<bool> {
+        if self.state.has_active_queues() {
+            perform_submits(&mut self.state, &self.senders).await?;
+            Ok(true)
+        } else {
+            Ok(false)
+        }
+    }
+
+    /// MIRROR: the `periodic_update_interval` arm of `autoalloc_process`.
+    pub async fn periodic_update(&mut self) -> bool {
+        if self.state.has_active_queues() {
+            do_periodic_update(&self.senders, &mut self.state).await;
+            true
+        } else {
+            false
+        }
+    }
+
+    pub fn snapshot(&self) -> AutoAllocSnapshot {
+        let mut queues: Vec<QueueSnapshot> = self
+            .state
+            .queues()
+            .map(|(id, queue)| {
+                let (current_delay, last_submission, allocation_fails, submission_fails) =
+                    queue.limiter().verif_snapshot();
+                let mut allocations: Vec<Allocation> = queue.all_allocations().cloned().collect();
+                allocations.sort_by(|a, b| a.id.cmp(&b.id));
+                QueueSnapshot {
+                    id,
+                    paused: matches!(queue.state(), AllocationQueueState::Paused),
+                    params: queue.info().params().clone(),
+                    worker_resources: queue.get_worker_resources().cloned(),
+                    limiter: LimiterSnapshot {
+                        current_delay,
+                        last_submission,
+                        allocation_fails,
+                        submission_fails,
+                    },
+                    allocations,
+                }
+            })
+            .collect();
+        queues.sort_by_key(|q| q.id);
+        let mut allocation_index = self.state.verif_allocation_index();
+        allocation_index.sort();
+        AutoAllocSnapshot {
+            queues,
+            allocation_index,
+            inactive_directories: self.state.verif_inactive_directory_count(),
+        }
+    }
+}
+
+/// Lifetime below which a lost worker counts as crashed (see `DisconnectedWorkers::all_crashed`).
+pub const CRASH_LIFETIME_LIMIT: Duration = Duration::from_secs(60);
